@@ -32,7 +32,9 @@ def specLastLe (ci : Bool) (lookup : Val) (keys : List Val) : Option Nat :=
 /-- element (r, c), 1-based, of a rectangular area; #REF! outside -/
 def specIndex (rs : List (List Val)) (r c : Int) : Option Val :=
   if r < 0 ∨ c < 0 then some errRef
-  else if r = 0 ∨ c = 0 then none        -- whole row / column forms: not fixed by the statement
+  else if r = 0 ∨ c = 0 then
+    -- whole row / column forms: the value is not fixed by the statement, but an index beyond the area is #REF! in any reading
+    (if (rs.length : Int) < r ∨ ((rs.headD []).length : Int) < c then some errRef else none)
   else match rs[(r - 1).toNat]? with
     | none => some errRef
     | some row => match row[(c - 1).toNat]? with
